@@ -64,8 +64,27 @@ def fixtures():
     return _FIXTURES
 
 
+def chains(w):
+    """ancestor chain of every type: the subtype relation is part of 'the same types' (a parent name alone is not)"""
+    # compared as the set of ancestor names: the parser may put a stand-in 'object' type between a root type and the
+    # real object type, which does not change the subtype relation
+    if "type_chains" in w:
+        return {k: tuple(sorted(set(v))) for k, v in sorted(w["type_chains"].items()) if k != "object"}
+    out = {}
+    for t in w["types"]:
+        c, x, n = [t], t, 0
+        while x in w["types"] and n < 50:
+            x = w["types"][x]
+            c.append(x)
+            n += 1
+        c.append("object")
+        out[t] = tuple(sorted(set(c)))
+    return dict(sorted(out.items()))
+
+
 def vocab(w):
-    return {"types": dict(sorted(w["types"].items())), "constants": dict(sorted(w["constants"].items())),
+    return {"types": dict(sorted(w["types"].items())), "type_ancestors": chains(w),
+            "constants": dict(sorted(w["constants"].items())),
             "predicates": dict(sorted(w["predicates"].items())), "functions": dict(sorted(w["functions"].items())),
             "signatures": {k: tuple(v["params"]) for k, v in sorted(w["actions"].items())}}
 
